@@ -7,21 +7,21 @@ Local Open Scope Z_scope.
 
 (** * small facts *)
 
-Lemma job_key_inj_ref a r1 r2 : job_key a r1 = job_key a r2 -> r1 = r2.
-Proof. unfold job_key. intros H. apply app_inv_head in H. congruence. Qed.
+Lemma job_key_inj a1 r1 a2 r2 : job_key a1 r1 = job_key a2 r2 -> a1 = a2 /\ r1 = r2.
+Proof. unfold job_key. intros H. injection H as -> ->. auto. Qed.
 
-Lemma delete_all_lookup_in (ks : list bytes) (t : jobtbl) (k : bytes) : k ∈ ks -> delete_all ks t !! k = None.
+Lemma delete_all_lookup_in (ks : list key) (t : jobtbl) (k : key) : k ∈ ks -> delete_all ks t !! k = None.
 Proof.
   induction ks as [|x ks IH]; cbn; [inversion 1|].
   intros H. destruct (decide (k = x)) as [->|Hne]; [apply lookup_delete|].
   rewrite lookup_delete_ne by congruence. apply IH. inversion H; subst; [congruence|assumption].
 Qed.
-Lemma delete_all_lookup_notin (ks : list bytes) (t : jobtbl) (k : bytes) : k ∉ ks -> delete_all ks t !! k = t !! k.
+Lemma delete_all_lookup_notin (ks : list key) (t : jobtbl) (k : key) : k ∉ ks -> delete_all ks t !! k = t !! k.
 Proof.
   induction ks as [|x ks IH]; cbn; [reflexivity|].
   intros H. apply not_elem_of_cons in H as [H1 H2]. rewrite lookup_delete_ne by congruence. auto.
 Qed.
-Lemma delete_all_lookup_Some (ks : list bytes) (t : jobtbl) (k : bytes) j :
+Lemma delete_all_lookup_Some (ks : list key) (t : jobtbl) (k : key) j :
   delete_all ks t !! k = Some j <-> t !! k = Some j /\ k ∉ ks.
 Proof.
   destruct (decide (k ∈ ks)) as [Hin|Hnin].
@@ -38,7 +38,7 @@ Qed.
 Lemma jk_of_with_tbl s t b : jk_of (with_tbl s t) b = jk_of s b.
 Proof. reflexivity. Qed.
 
-Lemma values_elem (m : keymap) (k : bytes) : k ∈ map snd (map_to_list m) <-> exists r, m !! r = Some k.
+Lemma values_elem (m : keymap) (k : key) : k ∈ map snd (map_to_list m) <-> exists r, m !! r = Some k.
 Proof.
   rewrite elem_of_list_In, in_map_iff. split.
   - intros ((r, k') & <- & Hin). exists r. apply elem_of_list_In, elem_of_map_to_list in Hin. exact Hin.
@@ -102,7 +102,7 @@ Lemma same_job_set_next j n : same_job j (set_next j n).
 Proof. repeat split. Qed.
 
 Lemma advance_keep dd lo hi j j' :
-  adv_keep j (snd (advance dd lo hi j)) = Some j' -> same_job j j' /\ j_next j <= j_next j' \/ False.
+  adv_keep (snd (advance dd lo hi j)) = Some j' -> same_job j j' /\ j_next j <= j_next j' \/ False.
 Proof.
   unfold advance. destruct (j_trig j) as [|i|] eqn:Et; cbn [snd].
   - destruct (hi <? j_next j); [cbn; intros [= <-]; left; split; [apply same_job_refl|lia]|].
@@ -117,7 +117,7 @@ Proof.
 Qed.
 
 Lemma advance_keep' dd lo hi j j' :
-  adv_keep j (snd (advance dd lo hi j)) = Some j' -> same_job j j' /\ j_next j <= j_next j'.
+  adv_keep (snd (advance dd lo hi j)) = Some j' -> same_job j j' /\ j_next j <= j_next j'.
 Proof. intros H. apply advance_keep in H as [H|[]]. exact H. Qed.
 
 (** * the representation invariant *)
@@ -138,51 +138,67 @@ Proof.
   constructor; unfold init, jk_of; cbn; intros; try (rewrite lookup_empty in *; cbn in *; try rewrite lookup_empty in *; discriminate); try tauto; try set_solver.
 Qed.
 
-Lemma jk_of_schedule s a recv ref p tr nx b :
-  jk_of (schedule s a recv ref p tr nx) b =
+Lemma jk_of_insert s a recv ref p tr nx b :
+  jk_of (insert_job s a recv ref p tr nx) b =
   if decide (a = b) then <[ref := job_key a ref]> (jk_of s a) else jk_of s b.
 Proof.
-  unfold jk_of at 1, schedule; cbn. destruct (decide (a = b)) as [->|Hne].
+  unfold jk_of at 1, insert_job; cbn. destruct (decide (a = b)) as [->|Hne].
   - rewrite lookup_insert. reflexivity.
   - rewrite lookup_insert_ne by assumption. reflexivity.
 Qed.
 
-Lemma schedule_tbl_lookup s a recv ref p tr nx k0 j0 :
-  tbl (schedule s a recv ref p tr nx) !! k0 = Some j0 <->
-  tbl s !! k0 = Some j0 \/
-  (tbl s !! job_key a ref = None /\ k0 = job_key a ref /\ j0 = mkJob (nid s) a recv ref p tr nx).
+Lemma insert_tbl_lookup s a recv ref p tr nx k0 j0 :
+  tbl s !! job_key a ref = None ->
+  (tbl (insert_job s a recv ref p tr nx) !! k0 = Some j0 <->
+   tbl s !! k0 = Some j0 \/ (k0 = job_key a ref /\ j0 = mkJob (nid s) a recv ref p tr nx)).
 Proof.
-  unfold schedule; cbn. destruct (tbl s !! job_key a ref) eqn:E.
-  - split; [auto|]. intros [H|(H & _)]; [exact H|discriminate].
-  - destruct (decide (k0 = job_key a ref)) as [->|Hne].
-    + rewrite lookup_insert, E. split; [intros [= <-]; right; auto|]. intros [H|(_ & _ & ->)]; [discriminate|reflexivity].
-    + rewrite lookup_insert_ne by congruence. split; [auto|]. intros [H|(_ & H & _)]; [exact H|contradiction].
+  intros E. unfold insert_job; cbn. destruct (decide (k0 = job_key a ref)) as [->|Hne].
+  - rewrite lookup_insert, E. split; [intros [= <-]; right; auto|]. intros [H|(_ & ->)]; [discriminate|reflexivity].
+  - rewrite lookup_insert_ne by congruence. split; [auto|]. intros [H|(H & _)]; [exact H|contradiction].
 Qed.
 
-Lemma schedule_inv s a recv ref p tr nx : Inv s -> a ∉ dead s -> Inv (schedule s a recv ref p tr nx).
+Lemma insert_inv s a recv ref p tr nx :
+  Inv s -> a ∉ dead s -> tbl s !! job_key a ref = None -> Inv (insert_job s a recv ref p tr nx).
 Proof.
-  intros I Ha. constructor.
-  - intros k j H. apply schedule_tbl_lookup in H as [H|(_ & -> & ->)]; [eapply inv_key; eauto|reflexivity].
-  - intros k j H. rewrite jk_of_schedule. apply schedule_tbl_lookup in H as [H|(_ & -> & ->)]; cbn.
+  intros I Ha Hfree. constructor.
+  - intros k j H. apply insert_tbl_lookup in H as [H|(-> & ->)]; [eapply inv_key; eauto|reflexivity|exact Hfree].
+  - intros k j H. rewrite jk_of_insert. apply insert_tbl_lookup in H as [H|(-> & ->)]; [| |exact Hfree]; cbn.
     + destruct (decide (a = j_owner j)) as [->|Hne]; [|eapply inv_own; eauto].
       destruct (decide (ref = j_ref j)) as [->|Hr].
       * rewrite lookup_insert. f_equal. symmetry. eapply inv_key; eauto.
       * rewrite lookup_insert_ne by assumption. eapply inv_own; eauto.
     + rewrite decide_True by reflexivity. apply lookup_insert.
-  - intros k j H. apply schedule_tbl_lookup in H as [H|(_ & -> & ->)]; cbn; [eapply inv_alive; eauto|exact Ha].
-  - intros k j H. apply schedule_tbl_lookup in H as [H|(_ & -> & ->)]; cbn; [pose proof (inv_idlt _ I _ _ H); lia|lia].
+  - intros k j H. apply insert_tbl_lookup in H as [H|(-> & ->)]; [| |exact Hfree]; cbn; [eapply inv_alive; eauto|exact Ha].
+  - intros k j H. apply insert_tbl_lookup in H as [H|(-> & ->)]; [| |exact Hfree]; cbn; [pose proof (inv_idlt _ I _ _ H); lia|lia].
   - intros k1 k2 j1 j2 H1 H2 Hid.
-    apply schedule_tbl_lookup in H1 as [H1|(_ & -> & ->)]; apply schedule_tbl_lookup in H2 as [H2|(_ & -> & ->)].
+    apply insert_tbl_lookup in H1 as [H1|(-> & ->)]; [| |exact Hfree]; (apply insert_tbl_lookup in H2 as [H2|(-> & ->)]; [| |exact Hfree]).
     + eapply inv_uniq; eauto.
     + pose proof (inv_idlt _ I _ _ H1). cbn in Hid. lia.
     + pose proof (inv_idlt _ I _ _ H2). cbn in Hid. lia.
     + reflexivity.
-  - intros b r k. rewrite jk_of_schedule. destruct (decide (a = b)) as [<-|Hne]; [|apply (inv_jk _ I)].
+  - intros b r k. rewrite jk_of_insert. destruct (decide (a = b)) as [<-|Hne]; [|apply (inv_jk _ I)].
     destruct (decide (ref = r)) as [<-|Hr].
     + rewrite lookup_insert. congruence.
     + rewrite lookup_insert_ne by assumption. apply (inv_jk _ I).
   - intros f H. cbn in H. apply (inv_fired _ I) in H. cbn. lia.
-  - intros b Hb. cbn in Hb. rewrite jk_of_schedule. rewrite decide_False by (intros ->; contradiction). apply (inv_deadjk _ I). exact Hb.
+  - intros b Hb. cbn in Hb. rewrite jk_of_insert. rewrite decide_False by (intros ->; contradiction). apply (inv_deadjk _ I). exact Hb.
+Qed.
+
+(** scheduleJob either fails and changes nothing, or the key was free and the job is inserted *)
+Lemma schedule_cases s a recv ref p tr nx :
+  (fst (schedule s a recv ref p tr nx) = s /\ snd (schedule s a recv ref p tr nx) <> ROk) \/
+  (tbl s !! job_key a ref = None /\ ref <> [] /\
+   schedule s a recv ref p tr nx = (insert_job s a recv ref p tr nx, ROk)).
+Proof.
+  unfold schedule. destruct ref as [|x ref]; [left; split; [reflexivity|discriminate]|].
+  destruct (tbl s !! job_key a (x :: ref)) eqn:E; [left; split; [reflexivity|discriminate]|].
+  right. split; [reflexivity|]. split; [discriminate|reflexivity].
+Qed.
+
+Lemma schedule_inv s a recv ref p tr nx : Inv s -> a ∉ dead s -> Inv (fst (schedule s a recv ref p tr nx)).
+Proof.
+  intros I Ha. destruct (schedule_cases s a recv ref p tr nx) as [[E _]|(Hf & _ & E)]; rewrite E; [exact I|].
+  apply insert_inv; assumption.
 Qed.
 
 Lemma cancel_inv s a ref : Inv s -> Inv (fst (cancel s a ref)).
@@ -228,7 +244,7 @@ Qed.
 
 Lemma tick_tbl_lookup dt s k :
   tbl (tick dt s) !! k =
-  tbl s !! k ≫= (fun j => adv_keep j (snd (advance (dead s) (now s) (now s + Z.max dt 0) j))).
+  tbl s !! k ≫= (fun j => adv_keep (snd (advance (dead s) (now s) (now s + Z.max dt 0) j))).
 Proof. unfold tick; cbn. apply lookup_omap. Qed.
 
 Lemma tick_tbl_Some dt s k j' :
@@ -267,12 +283,12 @@ Qed.
 
 Lemma step_inv o s : Inv s -> Inv (fst (step o s)).
 Proof.
-  intros I. unfold step. destruct (spin s); [exact I|].
+  intros I. unfold step.
   destruct o as [a recv ref d p|a recv ref i p|a recv ref v p|a ref|a|a ref|a|a|dt|dt|l]; unfold if_alive, is_dead;
     try (destruct (bool_decide (a ∈ dead s)) eqn:Ed; [exact I|apply bool_decide_eq_false in Ed]); cbn [fst].
-  - apply schedule_inv; assumption.
-  - apply schedule_inv; assumption.
-  - destruct v; cbn [fst]; [apply schedule_inv; assumption|exact I].
+  - destruct (d <? 0); [exact I|]. apply schedule_inv; assumption.
+  - destruct (i <=? 0); [exact I|]. apply schedule_inv; assumption.
+  - destruct v; [apply schedule_inv; assumption|exact I].
   - apply cancel_inv; assumption.
   - apply clear_inv; assumption.
   - exact I.
@@ -312,45 +328,73 @@ Lemma cancel_now s a ref : now (fst (cancel s a ref)) = now s.
 Proof. unfold cancel. destruct (jk_of s a !! ref); reflexivity. Qed.
 Lemma cancel_nid s a ref : nid (fst (cancel s a ref)) = nid s.
 Proof. unfold cancel. destruct (jk_of s a !! ref); reflexivity. Qed.
-Lemma cancel_spin s a ref : spin (fst (cancel s a ref)) = spin s.
-Proof. unfold cancel. destruct (jk_of s a !! ref); reflexivity. Qed.
 Lemma cancel_dead s a ref : dead (fst (cancel s a ref)) = dead s.
 Proof. unfold cancel. destruct (jk_of s a !! ref); reflexivity. Qed.
 
+Lemma schedule_fired s a recv ref p tr nx : fired (fst (schedule s a recv ref p tr nx)) = fired s.
+Proof. destruct (schedule_cases s a recv ref p tr nx) as [[E _]|(_ & _ & E)]; rewrite E; reflexivity. Qed.
+Lemma schedule_now s a recv ref p tr nx : now (fst (schedule s a recv ref p tr nx)) = now s.
+Proof. destruct (schedule_cases s a recv ref p tr nx) as [[E _]|(_ & _ & E)]; rewrite E; reflexivity. Qed.
+Lemma schedule_dead s a recv ref p tr nx : dead (fst (schedule s a recv ref p tr nx)) = dead s.
+Proof. destruct (schedule_cases s a recv ref p tr nx) as [[E _]|(_ & _ & E)]; rewrite E; reflexivity. Qed.
+Lemma schedule_nid_mono s a recv ref p tr nx : (nid s <= nid (fst (schedule s a recv ref p tr nx)))%N.
+Proof. destruct (schedule_cases s a recv ref p tr nx) as [[E _]|(_ & _ & E)]; rewrite E; cbn; lia. Qed.
+
+(** a queued job after scheduleJob is a job from before, or the new one *)
+Lemma schedule_tbl_origin s a recv ref p tr nx k j' :
+  tbl (fst (schedule s a recv ref p tr nx)) !! k = Some j' -> tbl s !! k = Some j' \/ j_id j' = nid s.
+Proof.
+  destruct (schedule_cases s a recv ref p tr nx) as [[E _]|(Hf & _ & E)]; rewrite E; cbn [fst]; [auto|].
+  intros H. apply insert_tbl_lookup in H as [H|(_ & ->)]; [left; exact H|right; reflexivity|exact Hf].
+Qed.
+Lemma schedule_tbl_keep s a recv ref p tr nx k j0 :
+  tbl s !! k = Some j0 -> tbl (fst (schedule s a recv ref p tr nx)) !! k = Some j0.
+Proof.
+  intros Hj. destruct (schedule_cases s a recv ref p tr nx) as [[E _]|(Hf & _ & E)]; rewrite E; cbn [fst]; [exact Hj|].
+  apply insert_tbl_lookup; [exact Hf|left; exact Hj].
+Qed.
+
 Ltac step_cases o s :=
-  unfold step; destruct (spin s) eqn:Espin; [|
+  unfold step;
   destruct o as [a recv ref d p|a recv ref i p|a recv ref v p|a ref|a|a ref|a|a|dt|dt|l]; unfold if_alive, is_dead;
-    try (destruct (bool_decide (a ∈ dead s)) eqn:Ed; [|apply bool_decide_eq_false in Ed]) ].
+    try (destruct (bool_decide (a ∈ dead s)) eqn:Ed; [|apply bool_decide_eq_false in Ed]).
 
 Lemma step_fired o s :
-  fired (fst (step o s)) =
-  fired s ++ (if spin s then [] else match o with OTick dt => tick_new dt s | _ => [] end).
+  fired (fst (step o s)) = fired s ++ (match o with OTick dt => tick_new dt s | _ => [] end).
 Proof.
   step_cases o s; cbn [fst]; try (rewrite app_nil_r; reflexivity); try reflexivity.
-  - destruct v; cbn; rewrite app_nil_r; reflexivity.
+  - destruct (d <? 0); cbn [fst]; rewrite ?schedule_fired, app_nil_r; reflexivity.
+  - destruct (i <=? 0); cbn [fst]; rewrite ?schedule_fired, app_nil_r; reflexivity.
+  - destruct v; cbn [fst]; rewrite ?schedule_fired, app_nil_r; reflexivity.
   - rewrite cancel_fired, app_nil_r. reflexivity.
 Qed.
 
 Lemma step_nid_mono o s : (nid s <= nid (fst (step o s)))%N.
 Proof.
-  step_cases o s; cbn [fst]; cbn; try lia.
-  - destruct v; cbn; lia.
+  step_cases o s; cbn [fst]; try (cbn; lia).
+  - destruct (d <? 0); cbn [fst]; [lia|apply schedule_nid_mono].
+  - destruct (i <=? 0); cbn [fst]; [lia|apply schedule_nid_mono].
+  - destruct v; cbn [fst]; [apply schedule_nid_mono|lia].
   - rewrite cancel_nid. lia.
 Qed.
 
 Lemma step_now_mono o s : now s <= now (fst (step o s)).
 Proof.
-  step_cases o s; cbn [fst]; cbn; try lia.
-  - destruct v; cbn; lia.
+  step_cases o s; cbn [fst]; try (cbn; lia).
+  - destruct (d <? 0); cbn [fst]; rewrite ?schedule_now; lia.
+  - destruct (i <=? 0); cbn [fst]; rewrite ?schedule_now; lia.
+  - destruct v; cbn [fst]; rewrite ?schedule_now; lia.
   - rewrite cancel_now. lia.
 Qed.
 
 Lemma step_dead_mono o s (z : bytes) : z ∈ dead s -> z ∈ dead (fst (step o s)).
 Proof.
-  step_cases o s; cbn [fst]; cbn; try tauto.
-  - destruct v; cbn; tauto.
+  step_cases o s; cbn [fst]; try (cbn; tauto).
+  - destruct (d <? 0); cbn [fst]; rewrite ?schedule_dead; tauto.
+  - destruct (i <=? 0); cbn [fst]; rewrite ?schedule_dead; tauto.
+  - destruct v; cbn [fst]; rewrite ?schedule_dead; tauto.
   - rewrite cancel_dead. tauto.
-  - set_solver.
+  - cbn. set_solver.
 Qed.
 
 (** a queued job after a step is a queued job from before (same identity, run time not earlier), or the
@@ -362,11 +406,13 @@ Proof.
   assert (Hold : forall t : jobtbl, t = tbl s -> t !! k = Some j' ->
             (exists j, tbl s !! k = Some j /\ same_job j j' /\ j_next j <= j_next j') \/ j_id j' = nid s).
   { intros t -> H. left. exists j'. split; [exact H|]. split; [apply same_job_refl|lia]. }
+  assert (Hsch : forall a recv ref p tr nx, tbl (fst (schedule s a recv ref p tr nx)) !! k = Some j' ->
+            (exists j, tbl s !! k = Some j /\ same_job j j' /\ j_next j <= j_next j') \/ j_id j' = nid s).
+  { intros a recv ref p tr nx H. apply schedule_tbl_origin in H as [H|H]; [eapply Hold; eauto|right; exact H]. }
   step_cases o s; cbn [fst]; try (apply Hold; reflexivity).
-  - intros H. apply schedule_tbl_lookup in H as [H|(_ & _ & ->)]; [eapply Hold; eauto|right; reflexivity].
-  - intros H. apply schedule_tbl_lookup in H as [H|(_ & _ & ->)]; [eapply Hold; eauto|right; reflexivity].
-  - destruct v; cbn [fst]; [|apply Hold; reflexivity].
-    intros H. apply schedule_tbl_lookup in H as [H|(_ & _ & ->)]; [eapply Hold; eauto|right; reflexivity].
+  - destruct (d <? 0); cbn [fst]; [apply Hold; reflexivity|apply Hsch].
+  - destruct (i <=? 0); cbn [fst]; [apply Hold; reflexivity|apply Hsch].
+  - destruct v; cbn [fst]; [apply Hsch|apply Hold; reflexivity].
   - unfold cancel. destruct (jk_of s a !! ref); cbn [fst]; [|apply Hold; reflexivity].
     cbn. intros H. apply lookup_delete_Some in H as [_ H]. eapply Hold; eauto.
   - cbn. intros H. apply delete_all_lookup_Some in H as [H _]. eapply Hold; eauto.
@@ -375,19 +421,6 @@ Proof.
   - intros H. apply tick_tbl_Some in H. left. exact H.
 Qed.
 
-Lemma step_spin_frozen o s : spin s = true -> fst (step o s) = s.
-Proof. intros H. unfold step. rewrite H. reflexivity. Qed.
-Lemma run_spin_frozen ops s : spin s = true -> run ops s = s.
-Proof. induction ops as [|o ops IH]; intros H; cbn; [reflexivity|]. rewrite step_spin_frozen by exact H. auto. Qed.
-
-Lemma step_spin_mono o s : spin s = true -> spin (fst (step o s)) = true.
-Proof. intros H. rewrite step_spin_frozen; assumption. Qed.
-Lemma run_spin_false_prefix ops1 ops2 s : spin (run (ops1 ++ ops2) s) = false -> spin (run ops1 s) = false.
-Proof.
-  revert s. induction ops1 as [|o ops IH]; intros s; cbn.
-  - intros H. destruct (spin s) eqn:E; [|reflexivity]. rewrite run_spin_frozen in H by exact E. congruence.
-  - apply IH.
-Qed.
 Lemma run_app ops1 ops2 s : run (ops1 ++ ops2) s = run ops2 (run ops1 s).
 Proof. revert s. induction ops1; intros s; cbn; auto. Qed.
 
@@ -453,7 +486,7 @@ Lemma step_gone x o s : Inv s -> (x < nid s)%N -> Gone x s ->
 Proof.
   intros I Hx G. split.
   - intros k j' H. apply step_tbl_origin in H as [(j & Hj & (Hid & _) & _)|Hid]; [rewrite Hid; exact (G _ _ Hj)|lia].
-  - rewrite (fires_of_app x s _ _ (step_fired o s)). destruct (spin s); [apply app_nil_r|].
+  - rewrite (fires_of_app x s _ _ (step_fired o s)).
     destruct o; try apply app_nil_r. rewrite tick_new_gone by exact G. apply app_nil_r.
 Qed.
 
@@ -483,7 +516,7 @@ Proof.
     apply step_tbl_origin in H as [(j & Hj & (Hi & Ho & Hr & Hf & Hp & Ht) & _)|Hn]; [|lia].
     rewrite Ho, Hr, Hf, Hp, Ht. apply (tr_job _ _ _ _ _ _ _ T _ _ Hj). congruence.
   - intros f H Hid. rewrite step_fired in H. apply in_app_iff in H as [H|H]; [apply (tr_fir _ _ _ _ _ _ _ T _ H Hid)|].
-    destruct (spin s); [destruct H|]. destruct o; try destruct H.
+    destruct o; try destruct H.
     unfold tick_new in H. apply in_flat_map in H as ((k, j) & Hin & Hf). apply elem_of_list_In, elem_of_map_to_list in Hin.
     cbn in Hf. apply advance_fires in Hf as (t & -> & _); [|lia]. cbn in Hid |- *.
     destruct (tr_job _ _ _ _ _ _ _ T _ _ Hin Hid) as (? & ? & ? & ? & ?). auto.
@@ -493,12 +526,12 @@ Lemma run_track x a recv ref p tr ops : forall s,
   Track x a recv ref p tr s -> Track x a recv ref p tr (run ops s).
 Proof. induction ops as [|o ops IH]; intros s T; cbn; [exact T|]. apply IH, step_track, T. Qed.
 
-Lemma schedule_track s a recv ref p tr nx : Inv s ->
-  Track (nid s) a recv ref p tr (schedule s a recv ref p tr nx).
+Lemma insert_track s a recv ref p tr nx : Inv s -> tbl s !! job_key a ref = None ->
+  Track (nid s) a recv ref p tr (insert_job s a recv ref p tr nx).
 Proof.
-  intros I. constructor.
+  intros I Hfree. constructor.
   - cbn. lia.
-  - intros k j H Hid. apply schedule_tbl_lookup in H as [H|(_ & _ & ->)]; [|cbn; auto].
+  - intros k j H Hid. apply insert_tbl_lookup in H as [H|(_ & ->)]; [|cbn; auto|exact Hfree].
     pose proof (inv_idlt _ I _ _ H). lia.
   - intros f H Hid. cbn in H. apply (inv_fired _ I) in H. lia.
 Qed.
@@ -513,16 +546,15 @@ Proof.
 Qed.
 
 Lemma step_removes x a0 recv0 ref0 p0 tr o s :
-  Inv s -> Track x a0 recv0 ref0 p0 tr s -> removes a0 ref0 o -> spin s = false ->
-  Gone x (fst (step o s)).
+  Inv s -> Track x a0 recv0 ref0 p0 tr s -> removes a0 ref0 o -> Gone x (fst (step o s)).
 Proof.
-  intros I T R Hs.
+  intros I T R.
   destruct (decide (a0 ∈ dead s)) as [Hd|Hd].
   { pose proof (track_alive_or_gone _ _ _ _ _ _ _ I T Hd) as G.
     apply (step_gone x o s I (tr_lt _ _ _ _ _ _ _ T) G). }
   assert (Hfields : forall k j, tbl s !! k = Some j -> j_id j = x -> j_owner j = a0 /\ j_ref j = ref0).
   { intros k j Hj Hid. destruct (tr_job _ _ _ _ _ _ _ T _ _ Hj Hid) as (? & _ & ? & _). auto. }
-  unfold step. rewrite Hs. unfold if_alive, is_dead.
+  unfold step, if_alive, is_dead.
   destruct R as [-> | [-> | [-> | ->]]]; rewrite bool_decide_eq_false_2 by exact Hd; cbn [fst].
   - unfold cancel. destruct (jk_of s a0 !! ref0) as [k0|] eqn:E; cbn [fst].
     + intros k j Hj Hid. cbn in Hj. apply lookup_delete_Some in Hj as [Hne Hj].
@@ -536,31 +568,34 @@ Proof.
     destruct (Hfields _ _ Hj Hid). contradiction.
 Qed.
 
-Lemma step_untouched k0 o s j0 :
-  Inv s -> ~ touches k0 o -> is_tick o = false -> tbl s !! k0 = Some j0 -> tbl (fst (step o s)) !! k0 = Some j0.
+(** only the owner's Cancel(ref) / Clear / termination / restart removes the key (path, ref) from the queue
+    (keys of different actors or references never coincide) *)
+Lemma step_untouched a0 ref0 o s j0 :
+  Inv s -> ~ removes a0 ref0 o -> is_tick o = false ->
+  tbl s !! job_key a0 ref0 = Some j0 -> tbl (fst (step o s)) !! job_key a0 ref0 = Some j0.
 Proof.
   intros I Ht Hnt Hj. step_cases o s; cbn [fst]; try exact Hj; try discriminate.
-  - apply schedule_tbl_lookup. left. exact Hj.
-  - apply schedule_tbl_lookup. left. exact Hj.
-  - destruct v; cbn [fst]; [apply schedule_tbl_lookup; left|]; exact Hj.
+  - destruct (d <? 0); cbn [fst]; [exact Hj|apply schedule_tbl_keep, Hj].
+  - destruct (i <=? 0); cbn [fst]; [exact Hj|apply schedule_tbl_keep, Hj].
+  - destruct v; cbn [fst]; [apply schedule_tbl_keep, Hj|exact Hj].
   - unfold cancel. destruct (jk_of s a !! ref) as [k1|] eqn:E; cbn [fst]; [|exact Hj]. cbn.
-    rewrite lookup_delete_ne; [exact Hj|]. intros ->. apply Ht. cbn. symmetry. exact (inv_jk _ I _ _ _ E).
+    rewrite lookup_delete_ne; [exact Hj|]. intros ->. apply Ht. left.
+    pose proof (inv_jk _ I _ _ _ E) as Hk. apply job_key_inj in Hk as [-> ->]. reflexivity.
   - cbn. apply delete_all_lookup_Some. split; [exact Hj|]. intros Hin. apply values_elem in Hin as (r & Hr).
-    apply Ht. cbn. exists r. symmetry. exact (inv_jk _ I _ _ _ Hr).
+    apply Ht. right. left. pose proof (inv_jk _ I _ _ _ Hr) as Hk. apply job_key_inj in Hk as [-> _]. reflexivity.
   - cbn. apply delete_all_lookup_Some. split; [exact Hj|]. intros Hin. apply values_elem in Hin as (r & Hr).
-    apply Ht. cbn. exists r. symmetry. exact (inv_jk _ I _ _ _ Hr).
+    apply Ht. right. right. left. pose proof (inv_jk _ I _ _ _ Hr) as Hk. apply job_key_inj in Hk as [-> _]. reflexivity.
   - cbn. apply delete_all_lookup_Some. split; [exact Hj|]. intros Hin. apply values_elem in Hin as (r & Hr).
-    apply Ht. cbn. exists r. symmetry. exact (inv_jk _ I _ _ _ Hr).
+    apply Ht. right. right. right. pose proof (inv_jk _ I _ _ _ Hr) as Hk. apply job_key_inj in Hk as [-> _]. reflexivity.
 Qed.
 
 Lemma step_tbl_origin_nontick o s k j' :
   is_tick o = false -> tbl (fst (step o s)) !! k = Some j' -> tbl s !! k = Some j' \/ j_id j' = nid s.
 Proof.
   intros Hnt. step_cases o s; cbn [fst]; try (intros H; left; exact H); try discriminate.
-  - intros H. apply schedule_tbl_lookup in H as [H|(_ & _ & ->)]; [left; exact H|right; reflexivity].
-  - intros H. apply schedule_tbl_lookup in H as [H|(_ & _ & ->)]; [left; exact H|right; reflexivity].
-  - destruct v; cbn [fst]; [|intros H; left; exact H].
-    intros H. apply schedule_tbl_lookup in H as [H|(_ & _ & ->)]; [left; exact H|right; reflexivity].
+  - destruct (d <? 0); cbn [fst]; [intros H; left; exact H|apply schedule_tbl_origin].
+  - destruct (i <=? 0); cbn [fst]; [intros H; left; exact H|apply schedule_tbl_origin].
+  - destruct v; cbn [fst]; [apply schedule_tbl_origin|intros H; left; exact H].
   - unfold cancel. destruct (jk_of s a !! ref); cbn [fst]; [|intros H; left; exact H].
     cbn. intros H. apply lookup_delete_Some in H as [_ H]. left; exact H.
   - cbn. intros H. apply delete_all_lookup_Some in H as [H _]. left; exact H.
@@ -568,12 +603,12 @@ Proof.
   - cbn. intros H. apply delete_all_lookup_Some in H as [H _]. left; exact H.
 Qed.
 
-Lemma step_now o s : spin s = false -> now (fst (step o s)) = now s + op_dt o.
+Lemma step_now o s : now (fst (step o s)) = now s + op_dt o.
 Proof.
-  intros Hs. unfold step. rewrite Hs.
-  destruct o as [a recv ref d p|a recv ref i p|a recv ref v p|a ref|a|a ref|a|a|dt|dt|l]; unfold if_alive;
-    try (destruct (is_dead s a)); cbn; try lia.
-  - destruct v; cbn; lia.
+  step_cases o s; cbn [fst op_dt]; try (cbn; lia).
+  - destruct (d <? 0); cbn [fst]; rewrite ?schedule_now; lia.
+  - destruct (i <=? 0); cbn [fst]; rewrite ?schedule_now; lia.
+  - destruct v; cbn [fst]; rewrite ?schedule_now; lia.
   - rewrite cancel_now. lia.
 Qed.
 
@@ -582,81 +617,62 @@ Proof. reflexivity. Qed.
 Lemma elapsed_app l1 l2 : elapsed (l1 ++ l2) = elapsed l1 + elapsed l2.
 Proof. induction l1 as [|o l1 IH]; [reflexivity|]. rewrite <- app_comm_cons, !elapsed_cons, IH. lia. Qed.
 
-Lemma run_now ops : forall s, spin (run ops s) = false -> now (run ops s) = now s + elapsed ops.
+Lemma run_now ops : forall s, now (run ops s) = now s + elapsed ops.
 Proof.
-  induction ops as [|o ops IH]; intros s H; [cbn; lia|].
-  rewrite elapsed_cons. cbn [run] in *. destruct (spin s) eqn:E.
-  - rewrite step_spin_frozen, run_spin_frozen in H by (try rewrite step_spin_frozen; assumption). congruence.
-  - rewrite IH by exact H. rewrite step_now by exact E. lia.
+  induction ops as [|o ops IH]; intros s; [cbn; lia|].
+  rewrite elapsed_cons. cbn [run]. rewrite IH, step_now. lia.
 Qed.
 
-Lemma sched_step o a0 recv0 ref0 p0 s :
-  is_sched o a0 recv0 ref0 p0 -> spin s = false -> a0 ∉ dead s ->
-  exists tr nx, fst (step o s) = schedule s a0 recv0 ref0 p0 tr nx /\
-    ((exists d, o = OOnce a0 recv0 ref0 d p0 /\ tr = TOnce /\ nx = now s + d) \/
-     (exists i, o = OLoop a0 recv0 ref0 i p0 /\ tr = TLoop i /\ nx = now s + i) \/
+(** a scheduling call that returned nil: the actor is alive, the key was free, the job is inserted *)
+Lemma sched_ok o a0 recv0 ref0 p0 s :
+  is_sched o a0 recv0 ref0 p0 -> snd (step o s) = ROk ->
+  exists tr nx, fst (step o s) = insert_job s a0 recv0 ref0 p0 tr nx /\
+    a0 ∉ dead s /\ tbl s !! job_key a0 ref0 = None /\
+    ((exists d, o = OOnce a0 recv0 ref0 d p0 /\ tr = TOnce /\ nx = now s + d /\ 0 <= d) \/
+     (exists i, o = OLoop a0 recv0 ref0 i p0 /\ tr = TLoop i /\ nx = now s + i /\ 0 < i) \/
      (o = OCron a0 recv0 ref0 true p0 /\ tr = TCron)).
 Proof.
-  intros Hs Hsp Hd. unfold step. rewrite Hsp. unfold if_alive, is_dead.
-  destruct Hs as [(d & ->) | [(i & ->) | ->]]; rewrite bool_decide_eq_false_2 by exact Hd; cbn [fst]; do 2 eexists; (split; [reflexivity|]).
-  - left. eauto.
-  - right. left. eauto.
-  - right. right. eauto.
+  intros Hs Hok. unfold step, if_alive, is_dead in *.
+  destruct Hs as [(d & ->) | [(i & ->) | ->]];
+    (destruct (bool_decide (a0 ∈ dead s)) eqn:Ed; [discriminate|apply bool_decide_eq_false in Ed]).
+  - destruct (d <? 0) eqn:Ed0; [discriminate|].
+    destruct (schedule_cases s a0 recv0 ref0 p0 TOnce (now s + d)) as [[_ Hne]|(Hf & _ & E)]; [contradiction|].
+    rewrite E. do 2 eexists. split; [reflexivity|]. split; [exact Ed|]. split; [exact Hf|]. left. exists d. repeat split; lia.
+  - destruct (i <=? 0) eqn:Ei0; [discriminate|].
+    destruct (schedule_cases s a0 recv0 ref0 p0 (TLoop i) (now s + i)) as [[_ Hne]|(Hf & _ & E)]; [contradiction|].
+    rewrite E. do 2 eexists. split; [reflexivity|]. split; [exact Ed|]. split; [exact Hf|]. right. left. exists i. repeat split; lia.
+  - destruct (schedule_cases s a0 recv0 ref0 p0 TCron 0) as [[_ Hne]|(Hf & _ & E)]; [contradiction|].
+    rewrite E. do 2 eexists. split; [reflexivity|]. split; [exact Ed|]. split; [exact Hf|]. right. right. auto.
 Qed.
 
-(** * no spin without a non-positive interval *)
+(** * every queued SimpleTrigger has a positive interval *)
 
-Definition PosInv (s : sched) : Prop :=
-  spin s = false /\ forall k j i, tbl s !! k = Some j -> j_trig j = TLoop i -> 0 < i.
+Definition PosInv (s : sched) : Prop := forall k j i, tbl s !! k = Some j -> j_trig j = TLoop i -> 0 < i.
 
-Lemma advance_no_spin dd lo hi j :
-  (forall i, j_trig j = TLoop i -> 0 < i) -> adv_spin (snd (advance dd lo hi j)) = false.
+Lemma step_pos o s : PosInv s -> PosInv (fst (step o s)).
 Proof.
-  intros H. unfold advance. destruct (j_trig j) as [|i|]; cbn [snd].
-  - destruct (hi <? j_next j); [reflexivity|]. destruct (j_next j <? lo - thr); reflexivity.
-  - specialize (H i eq_refl). destruct (hi <? j_next j); [reflexivity|].
-    rewrite (proj2 (Z.leb_gt i 0)) by lia.
-    destruct (hi <? (if j_next j <? lo - thr then lo + i else j_next j)); reflexivity.
-  - reflexivity.
+  intros Hp.
+  assert (Hsched : forall a recv ref p tr nx, (forall i, tr = TLoop i -> 0 < i) -> PosInv (fst (schedule s a recv ref p tr nx))).
+  { intros a recv ref p tr nx Htr k j i H Ht.
+    destruct (schedule_cases s a recv ref p tr nx) as [[E _]|(Hf & _ & E)]; rewrite E in H; cbn [fst] in H; [eapply Hp; eauto|].
+    apply insert_tbl_lookup in H as [H|(_ & ->)]; [eapply Hp; eauto|auto|exact Hf]. }
+  step_cases o s; cbn [fst]; try exact Hp.
+  - destruct (d <? 0); cbn [fst]; [exact Hp|]. apply Hsched. discriminate.
+  - destruct (i <=? 0) eqn:Ei; cbn [fst]; [exact Hp|]. apply Hsched. intros i' [= <-]. lia.
+  - destruct v; cbn [fst]; [|exact Hp]. apply Hsched. discriminate.
+  - unfold cancel. destruct (jk_of s a !! ref); cbn [fst]; [|exact Hp].
+    intros k j i H. cbn in H. apply lookup_delete_Some in H as [_ H]. eapply Hp; eauto.
+  - intros k j i H. cbn in H. apply delete_all_lookup_Some in H as [H _]. eapply Hp; eauto.
+  - intros k j i H. cbn in H. apply delete_all_lookup_Some in H as [H _]. eapply Hp; eauto.
+  - intros k j i H. cbn in H. apply delete_all_lookup_Some in H as [H _]. eapply Hp; eauto.
+  - intros k j' i H Ht. apply tick_tbl_Some in H as (j & Hj & (_ & _ & _ & _ & _ & Htr) & _). eapply Hp; eauto. congruence.
 Qed.
 
-Lemma step_pos o s :
-  match o with OLoop _ _ _ i _ => 0 < i | _ => True end -> PosInv s -> PosInv (fst (step o s)).
+Lemma reach_pos ops : PosInv (run ops init).
 Proof.
-  intros Ho [Hs Hp].
-  assert (Hsched : forall a recv ref p tr nx, (forall i, tr = TLoop i -> 0 < i) ->
-            forall k j i, tbl (schedule s a recv ref p tr nx) !! k = Some j -> j_trig j = TLoop i -> 0 < i).
-  { intros a recv ref p tr nx Htr k j i H Ht. apply schedule_tbl_lookup in H as [H|(_ & _ & ->)]; [eapply Hp; eauto|auto]. }
-  unfold step. rewrite Hs.
-  destruct o as [a recv ref d p|a recv ref i p|a recv ref v p|a ref|a|a ref|a|a|dt|dt|l]; unfold if_alive;
-    try (destruct (is_dead s a); [split; assumption|]); cbn [fst].
-  - split; [exact Hs|]. apply Hsched. discriminate.
-  - split; [exact Hs|]. apply Hsched. intros i' [= <-]. exact Ho.
-  - destruct v; cbn [fst]; [|split; assumption]. split; [exact Hs|]. apply Hsched. discriminate.
-  - split; [rewrite cancel_spin; exact Hs|]. unfold cancel. destruct (jk_of s a !! ref); cbn [fst]; [|exact Hp].
-    cbn. intros k j i H. apply lookup_delete_Some in H as [_ H]. eapply Hp; eauto.
-  - split; [exact Hs|]. cbn. intros k j i H. apply delete_all_lookup_Some in H as [H _]. eapply Hp; eauto.
-  - split; assumption.
-  - split; [exact Hs|]. cbn. intros k j i H. apply delete_all_lookup_Some in H as [H _]. eapply Hp; eauto.
-  - split; [exact Hs|]. cbn. intros k j i H. apply delete_all_lookup_Some in H as [H _]. eapply Hp; eauto.
-  - split.
-    + cbn. rewrite Hs. cbn. apply not_true_iff_false. intros H. apply existsb_exists in H as ((k, j) & Hin & H).
-      apply elem_of_list_In, elem_of_map_to_list in Hin. cbn in H. rewrite advance_no_spin in H; [discriminate|].
-      intros i. eapply Hp; eauto.
-    + intros k j' i H Ht. apply tick_tbl_Some in H as (j & Hj & (_ & _ & _ & _ & _ & Htr) & _). eapply Hp; eauto. congruence.
-  - split; cbn; auto.
-  - split; cbn; auto.
-Qed.
-
-Lemma run_pos ops : forall s, loops_positive ops -> PosInv s -> PosInv (run ops s).
-Proof.
-  induction ops as [|o ops IH]; intros s Hl P; cbn; [exact P|].
-  inversion Hl; subst. apply IH; [assumption|]. apply step_pos; assumption.
-Qed.
-
-Lemma no_spin ops : loops_positive ops -> spin (run ops init) = false.
-Proof.
-  intros H. apply (run_pos ops init H). split; [reflexivity|]. intros k j i Hj. cbn in Hj. rewrite lookup_empty in Hj. discriminate.
+  assert (H : forall s, PosInv s -> PosInv (run ops s)).
+  { induction ops as [|o ops IH]; intros s P; cbn; [exact P|]. apply IH, step_pos, P. }
+  apply H. intros k j i Hj. cbn in Hj. rewrite lookup_empty in Hj. discriminate.
 Qed.
 
 (** * jobs die with their actor *)
@@ -668,17 +684,17 @@ Proof.
   intros k j Hj Ho. apply (inv_alive _ I _ _ Hj). rewrite Ho. exact Hd.
 Qed.
 
-Lemma died_is_dead s (a : bytes) : spin s = false -> a ∈ dead (fst (step (ODied a) s)).
+Lemma died_is_dead s (a : bytes) : a ∈ dead (fst (step (ODied a) s)).
 Proof.
-  intros Hs. unfold step. rewrite Hs. unfold if_alive, is_dead.
+  unfold step, if_alive, is_dead.
   destruct (bool_decide (a ∈ dead s)) eqn:E; cbn [fst]; [apply bool_decide_eq_true in E; exact E|]. cbn. set_solver.
 Qed.
 
-Lemma restarted_clears s (a : bytes) : Inv s -> spin s = false -> a ∉ dead s ->
+Lemma restarted_clears s (a : bytes) : Inv s -> a ∉ dead s ->
   let s' := fst (step (ORestarted a) s) in
   (forall k j, tbl s' !! k = Some j -> j_owner j <> a) /\ jk_of s' a = ∅.
 Proof.
-  intros I Hs Hd. unfold step. rewrite Hs. unfold if_alive, is_dead. rewrite bool_decide_eq_false_2 by exact Hd. cbn [fst].
+  intros I Hd. unfold step, if_alive, is_dead. rewrite bool_decide_eq_false_2 by exact Hd. cbn [fst].
   split.
   - intros k j Hj. eapply clear_no_owner; eauto.
   - unfold clear. rewrite jk_of_with_jk, decide_True by reflexivity. reflexivity.
@@ -689,7 +705,7 @@ Lemma step_fired_dead_owner o s (a0 : bytes) f :
   Inv s -> a0 ∈ dead s -> In f (fired (fst (step o s))) -> f_owner f = a0 -> In f (fired s).
 Proof.
   intros I Hd H Ho. rewrite step_fired in H. apply in_app_iff in H as [H|H]; [exact H|exfalso].
-  destruct (spin s); [destruct H|]. destruct o; try destruct H.
+  destruct o; try destruct H.
   unfold tick_new in H. apply in_flat_map in H as ((k, j) & Hin & Hf). apply elem_of_list_In, elem_of_map_to_list in Hin.
   cbn in Hf. apply advance_fires in Hf as (t & -> & _); [|lia]. cbn in Ho.
   apply (inv_alive _ I _ _ Hin). rewrite Ho. exact Hd.
@@ -707,23 +723,23 @@ Qed.
 
 Lemma gone_dec x s : Gone x s \/ exists k j, tbl s !! k = Some j /\ j_id j = x.
 Proof.
-  destruct (decide (Exists (fun kj : bytes * job => j_id (snd kj) = x) (map_to_list (tbl s)))) as [H|H].
+  destruct (decide (Exists (fun kj : key * job => j_id (snd kj) = x) (map_to_list (tbl s)))) as [H|H].
   - right. apply Exists_exists in H as ((k, j) & Hin & Hid). apply elem_of_map_to_list in Hin. exists k, j. auto.
   - left. intros k j Hj Hid. apply H. apply Exists_exists. exists (k, j). split; [apply elem_of_map_to_list; exact Hj|exact Hid].
 Qed.
 
-Lemma step_tick dt s : spin s = false -> fst (step (OTick dt) s) = tick dt s.
-Proof. intros H. unfold step. rewrite H. reflexivity. Qed.
+Lemma step_tick dt s : fst (step (OTick dt) s) = tick dt s.
+Proof. reflexivity. Qed.
 
 Lemma step_fires_nontick x o s : is_tick o = false -> fires_of x (fst (step o s)) = fires_of x s.
 Proof.
-  intros Hnt. rewrite (fires_of_app x s _ _ (step_fired o s)). destruct (spin s); [apply app_nil_r|].
+  intros Hnt. rewrite (fires_of_app x s _ _ (step_fired o s)).
   destruct o; try apply app_nil_r. discriminate.
 Qed.
 
 Lemma tick_fires_job x dt s k j : Inv s -> tbl s !! k = Some j -> j_id j = x ->
   fires_of x (tick dt s) = fires_of x s ++ fst (advance (dead s) (now s) (now s + Z.max dt 0) j) /\
-  tbl (tick dt s) !! k = adv_keep j (snd (advance (dead s) (now s) (now s + Z.max dt 0) j)) /\
+  tbl (tick dt s) !! k = adv_keep (snd (advance (dead s) (now s) (now s + Z.max dt 0) j)) /\
   (forall k' j', tbl (tick dt s) !! k' = Some j' -> j_id j' = x -> k' = k).
 Proof.
   intros I Hj Hid. split; [|split].
@@ -742,11 +758,11 @@ Record OnceInv (x : N) (D : Z) (s : sched) : Prop := mkOnceInv {
 Lemma step_once_inv x a0 recv0 ref0 p0 D o s :
   Inv s -> Track x a0 recv0 ref0 p0 TOnce s -> OnceInv x D s -> OnceInv x D (fst (step o s)).
 Proof.
-  intros I T O. destruct (spin s) eqn:Es; [rewrite step_spin_frozen by exact Es; exact O|].
+  intros I T O.
   destruct (is_tick o) eqn:Et.
-  - destruct o; try discriminate. rewrite step_tick by exact Es.
+  - destruct o; try discriminate. rewrite step_tick.
     destruct (gone_dec x s) as [G|(k & j & Hj & Hid)].
-    + destruct (step_gone x (OTick dt) s I (tr_lt _ _ _ _ _ _ _ T) G) as [G' E]. rewrite step_tick in G', E by exact Es.
+    + destruct (step_gone x (OTick dt) s I (tr_lt _ _ _ _ _ _ _ T) G) as [G' E]. rewrite step_tick in G', E.
       constructor; [intros k j Hj Hid; exfalso; exact (G' _ _ Hj Hid)|rewrite E; apply O|rewrite E; apply O].
     + destruct (tick_fires_job x dt s k j I Hj Hid) as (Ef & Ek & Hu).
       destruct (tr_job _ _ _ _ _ _ _ T _ _ Hj Hid) as (_ & _ & _ & _ & Htr).
@@ -778,33 +794,33 @@ Proof.
   intros I H. unfold fires_of. apply filter_none. intros f Hf. apply (inv_fired _ I) in Hf. apply N.eqb_neq. lia.
 Qed.
 
-Lemma schedule_fires x s a recv ref p tr nx : fires_of x (schedule s a recv ref p tr nx) = fires_of x s.
+Lemma insert_fires x s a recv ref p tr nx : fires_of x (insert_job s a recv ref p tr nx) = fires_of x s.
 Proof. reflexivity. Qed.
 
-Lemma schedule_once_inv s a recv ref p nx : Inv s ->
-  OnceInv (nid s) nx (schedule s a recv ref p TOnce nx).
+Lemma insert_once_inv s a recv ref p nx : Inv s -> tbl s !! job_key a ref = None ->
+  OnceInv (nid s) nx (insert_job s a recv ref p TOnce nx).
 Proof.
-  intros I. constructor; rewrite schedule_fires, fires_of_fresh by (auto; lia); cbn; [|lia|tauto].
-  intros k j H Hid. apply schedule_tbl_lookup in H as [H|(_ & _ & ->)]; [|cbn; auto].
+  intros I Hfree. constructor; rewrite insert_fires, fires_of_fresh by (auto; lia); cbn; [|lia|tauto].
+  intros k j H Hid. apply insert_tbl_lookup in H as [H|(_ & ->)]; [|cbn; auto|exact Hfree].
   pose proof (inv_idlt _ I _ _ H). lia.
 Qed.
 
 (** the Once job of call [x] is still queued, not yet due / has been told exactly once, at its instant *)
-Definition Pending (x : N) (k : bytes) (D : Z) (s : sched) : Prop :=
+Definition Pending (x : N) (k : key) (D : Z) (s : sched) : Prop :=
   exists j, tbl s !! k = Some j /\ j_id j = x /\ now s <= D.
 Definition Done (x : N) (D : Z) (s : sched) : Prop :=
   Gone x s /\ exists f, fires_of x s = [f] /\ f_time f = D.
 
-Lemma step_once_progress x a0 recv0 ref0 p0 k D o s :
-  Inv s -> Track x a0 recv0 ref0 p0 TOnce s -> OnceInv x D s -> spin s = false ->
-  is_stall o = false -> ~ touches k o -> Pending x k D s ->
-  (Pending x k D (fst (step o s)) \/ Done x D (fst (step o s))) /\
+Lemma step_once_progress x a0 recv0 ref0 p0 D o s :
+  Inv s -> Track x a0 recv0 ref0 p0 TOnce s -> OnceInv x D s ->
+  is_stall o = false -> ~ removes a0 ref0 o -> Pending x (job_key a0 ref0) D s ->
+  (Pending x (job_key a0 ref0) D (fst (step o s)) \/ Done x D (fst (step o s))) /\
   (forall dt, o = OTick dt -> D <= now s + Z.max dt 0 -> Done x D (fst (step o s))).
 Proof.
-  intros I T O Es Hst Hto (j & Hj & Hid & Hnow).
+  intros I T O Hst Hto (j & Hj & Hid & Hnow).
   destruct (is_tick o) eqn:Et.
-  - destruct o; try discriminate. rewrite step_tick by exact Es.
-    destruct (tick_fires_job x dt s k j I Hj Hid) as (Ef & Ek & Hu).
+  - destruct o; try discriminate. rewrite step_tick.
+    destruct (tick_fires_job x dt s _ j I Hj Hid) as (Ef & Ek & Hu).
     destruct (tr_job _ _ _ _ _ _ _ T _ _ Hj Hid) as (_ & _ & _ & _ & Htr).
     destruct (oi_job _ _ _ O _ _ Hj Hid) as [Hn Hf0]. rewrite Hf0 in Ef. cbn [app] in Ef.
     unfold advance in Ef, Ek. rewrite Htr, Hn in Ef, Ek.
@@ -813,12 +829,12 @@ Proof.
     + rewrite (proj2 (Z.ltb_ge D (now s - thr))) in Ef, Ek by (unfold thr; lia). cbn [fst snd adv_keep] in Ef, Ek.
       assert (Dn : Done x D (tick dt s)).
       { split.
-        - intros k' j' Hj' Hid'. assert (k' = k) by (eapply Hu; eauto). subst k'. rewrite Ek in Hj'. discriminate.
+        - intros k' j' Hj' Hid'. assert (k' = job_key a0 ref0) by (eapply Hu; eauto). subst k'. rewrite Ek in Hj'. discriminate.
         - eexists. split; [exact Ef|]. cbn. lia. }
       split; [right; exact Dn|intros; exact Dn].
   - split; [left|intros dt ->; discriminate].
     exists j. split; [apply step_untouched; assumption|]. split; [exact Hid|].
-    rewrite step_now by exact Es. destruct o; cbn; try lia; discriminate.
+    rewrite step_now. destruct o; cbn; try lia; discriminate.
 Qed.
 
 Lemma done_stable x D ops s : Inv s -> (x < nid s)%N -> Done x D s -> Done x D (run ops s).
@@ -826,16 +842,14 @@ Proof.
   intros I Hx [G (f & Ef & Ht)]. destruct (run_gone x ops s I Hx G) as [G' E]. split; [exact G'|]. exists f. rewrite E. auto.
 Qed.
 
-Lemma run_once_progress x a0 recv0 ref0 p0 k D ops : forall s,
+Lemma run_once_progress x a0 recv0 ref0 p0 D ops : forall s,
   Inv s -> Track x a0 recv0 ref0 p0 TOnce s -> OnceInv x D s ->
-  no_stall ops -> Forall (fun o => ~ touches k o) ops -> spin (run ops s) = false ->
-  Pending x k D s \/ Done x D s ->
-  Pending x k D (run ops s) \/ Done x D (run ops s).
+  no_stall ops -> Forall (fun o => ~ removes a0 ref0 o) ops ->
+  Pending x (job_key a0 ref0) D s \/ Done x D s ->
+  Pending x (job_key a0 ref0) D (run ops s) \/ Done x D (run ops s).
 Proof.
-  induction ops as [|o ops IH]; intros s I T O Hns Hto Hsp H; cbn; [exact H|].
-  inversion Hns; subst. inversion Hto; subst. cbn in Hsp.
-  assert (Es : spin s = false).
-  { destruct (spin s) eqn:E; [|reflexivity]. rewrite step_spin_frozen, run_spin_frozen in Hsp by (try rewrite step_spin_frozen; assumption). congruence. }
+  induction ops as [|o ops IH]; intros s I T O Hns Hto H; cbn; [exact H|].
+  inversion Hns; subst. inversion Hto; subst.
   apply IH; try assumption; [apply step_inv, I|apply step_track, T|eapply step_once_inv; eauto|].
   destruct H as [P|Dn].
   - eapply step_once_progress; eauto.
@@ -848,7 +862,7 @@ Definition DL (s : sched) : Prop := forall f, In f (fired s) -> f_dead f = true 
 Lemma step_dl o s : DL s -> DL (fst (step o s)).
 Proof.
   intros H f Hf Hd. rewrite step_fired in Hf. apply in_app_iff in Hf as [Hf|Hf]; [apply step_dead_mono, (H _ Hf Hd)|].
-  destruct (spin s) eqn:Es; [destruct Hf|]. destruct o; try destruct Hf. rewrite step_tick by exact Es.
+  destruct o; try destruct Hf. rewrite step_tick.
   unfold tick_new in Hf. apply in_flat_map in Hf as ((k, j) & Hin & Hf). cbn in Hf.
   apply advance_fires in Hf as (t & -> & _); [|lia]. cbn in Hd |- *. apply bool_decide_eq_true in Hd. exact Hd.
 Qed.
@@ -884,12 +898,12 @@ Lemma step_loop_inv x a0 recv0 ref0 p0 t0 i0 o s :
   Inv s -> Track x a0 recv0 ref0 p0 (TLoop i0) s -> 0 < i0 -> is_stall o = false ->
   LoopInv x t0 i0 s -> LoopInv x t0 i0 (fst (step o s)).
 Proof.
-  intros I T Hi Hst L. destruct (spin s) eqn:Es; [rewrite step_spin_frozen by exact Es; exact L|].
+  intros I T Hi Hst L.
   destruct L as (m & Hf & Hle & Hjob).
   destruct (is_tick o) eqn:Et.
-  - destruct o; try discriminate. rewrite step_tick by exact Es.
+  - destruct o; try discriminate. rewrite step_tick.
     destruct (gone_dec x s) as [G|(k & j & Hj & Hid)].
-    + destruct (step_gone x (OTick dt) s I (tr_lt _ _ _ _ _ _ _ T) G) as [G' E]. rewrite step_tick in G', E by exact Es.
+    + destruct (step_gone x (OTick dt) s I (tr_lt _ _ _ _ _ _ _ T) G) as [G' E]. rewrite step_tick in G', E.
       exists m. rewrite E, tick_now. split; [exact Hf|]. split; [lia|]. intros k j Hj Hid. exfalso. exact (G' _ _ Hj Hid).
     + destruct (tick_fires_job x dt s k j I Hj Hid) as (Ef & Ek & Hu).
       destruct (tr_job _ _ _ _ _ _ _ T _ _ Hj Hid) as (_ & _ & _ & _ & Htr).
@@ -911,7 +925,7 @@ Proof.
         split; [reflexivity|]. split; [subst c; nia|].
         intros k' j' Hj' Hid'. assert (k' = k) by (eapply Hu; eauto). subst k'. rewrite Ek in Hj'. injection Hj' as <-.
         cbn [j_next set_next]. rewrite Hc. split; [rewrite Hn; ring|subst c; nia].
-  - exists m. rewrite (step_fires_nontick x o s Et). rewrite step_now by exact Es.
+  - exists m. rewrite (step_fires_nontick x o s Et). rewrite step_now.
     assert (Hz : op_dt o = 0) by (destruct o; try reflexivity; discriminate). rewrite Hz, Z.add_0_r.
     split; [exact Hf|]. split; [exact Hle|].
     intros k j' Hj' Hid. apply (step_tbl_origin_nontick o s k j' Et) in Hj' as [Hj'|Hn'].
@@ -927,17 +941,17 @@ Proof.
   apply IH; [apply step_inv, I|apply step_track, T|exact Hi|assumption|eapply step_loop_inv; eauto].
 Qed.
 
-Definition Present (x : N) (k : bytes) (s : sched) : Prop := exists j, tbl s !! k = Some j /\ j_id j = x.
+Definition Present (x : N) (k : key) (s : sched) : Prop := exists j, tbl s !! k = Some j /\ j_id j = x.
 
-Lemma step_present x a0 recv0 ref0 p0 i0 k o s :
-  Inv s -> Track x a0 recv0 ref0 p0 (TLoop i0) s -> 0 < i0 -> spin s = false -> ~ touches k o ->
-  Present x k s -> Present x k (fst (step o s)).
+Lemma step_present x a0 recv0 ref0 p0 i0 o s :
+  Inv s -> Track x a0 recv0 ref0 p0 (TLoop i0) s -> 0 < i0 -> ~ removes a0 ref0 o ->
+  Present x (job_key a0 ref0) s -> Present x (job_key a0 ref0) (fst (step o s)).
 Proof.
-  intros I T Hi Es Hto (j & Hj & Hid). destruct (is_tick o) eqn:Et.
-  - destruct o; try discriminate. rewrite step_tick by exact Es.
-    destruct (tick_fires_job x dt s k j I Hj Hid) as (_ & Ek & _).
+  intros I T Hi Hto (j & Hj & Hid). destruct (is_tick o) eqn:Et.
+  - destruct o; try discriminate. rewrite step_tick.
+    destruct (tick_fires_job x dt s _ j I Hj Hid) as (_ & Ek & _).
     destruct (tr_job _ _ _ _ _ _ _ T _ _ Hj Hid) as (_ & _ & _ & _ & Htr).
-    assert (Hk : exists j', adv_keep j (snd (advance (dead s) (now s) (now s + Z.max dt 0) j)) = Some j').
+    assert (Hk : exists j', adv_keep (snd (advance (dead s) (now s) (now s + Z.max dt 0) j)) = Some j').
     { unfold advance. rewrite Htr. destruct (now s + Z.max dt 0 <? j_next j); [eexists; reflexivity|].
       rewrite (proj2 (Z.leb_gt i0 0)) by lia.
       destruct (now s + Z.max dt 0 <? (if j_next j <? now s - thr then now s + i0 else j_next j)); eexists; reflexivity. }
@@ -946,13 +960,11 @@ Proof.
   - exists j. split; [apply step_untouched; assumption|exact Hid].
 Qed.
 
-Lemma run_present x a0 recv0 ref0 p0 i0 k ops : forall s,
-  Inv s -> Track x a0 recv0 ref0 p0 (TLoop i0) s -> 0 < i0 -> Forall (fun o => ~ touches k o) ops ->
-  spin (run ops s) = false -> Present x k s -> Present x k (run ops s).
+Lemma run_present x a0 recv0 ref0 p0 i0 ops : forall s,
+  Inv s -> Track x a0 recv0 ref0 p0 (TLoop i0) s -> 0 < i0 -> Forall (fun o => ~ removes a0 ref0 o) ops ->
+  Present x (job_key a0 ref0) s -> Present x (job_key a0 ref0) (run ops s).
 Proof.
-  induction ops as [|o ops IH]; intros s I T Hi Hto Hsp P; cbn; [exact P|]. inversion Hto; subst. cbn in Hsp.
-  assert (Es : spin s = false).
-  { destruct (spin s) eqn:E; [|reflexivity]. rewrite step_spin_frozen, run_spin_frozen in Hsp by (try rewrite step_spin_frozen; assumption). congruence. }
+  induction ops as [|o ops IH]; intros s I T Hi Hto P; cbn; [exact P|]. inversion Hto; subst.
   apply IH; try assumption; [apply step_inv, I|apply step_track, T|eapply step_present; eauto].
 Qed.
 
@@ -968,132 +980,126 @@ Lemma reach_inv ops : Inv (run ops init).
 Proof. apply run_inv, inv_init. Qed.
 
 Lemma after_sched pre o a recv ref p :
-  is_sched o a recv ref p -> spin (run pre init) = false -> a ∉ dead (run pre init) ->
+  is_sched o a recv ref p -> snd (step o (run pre init)) = ROk ->
   exists tr nx,
-    fst (step o (run pre init)) = schedule (run pre init) a recv ref p tr nx /\
+    fst (step o (run pre init)) = insert_job (run pre init) a recv ref p tr nx /\
     Inv (fst (step o (run pre init))) /\
     Track (nid (run pre init)) a recv ref p tr (fst (step o (run pre init))) /\
-    ((exists d, o = OOnce a recv ref d p /\ tr = TOnce /\ nx = now (run pre init) + d) \/
-     (exists i, o = OLoop a recv ref i p /\ tr = TLoop i /\ nx = now (run pre init) + i) \/
+    a ∉ dead (run pre init) /\ tbl (run pre init) !! job_key a ref = None /\
+    ((exists d, o = OOnce a recv ref d p /\ tr = TOnce /\ nx = now (run pre init) + d /\ 0 <= d) \/
+     (exists i, o = OLoop a recv ref i p /\ tr = TLoop i /\ nx = now (run pre init) + i /\ 0 < i) \/
      (o = OCron a recv ref true p /\ tr = TCron)).
 Proof.
-  intros Hs Hsp Hd. destruct (sched_step o a recv ref p _ Hs Hsp Hd) as (tr & nx & E & K).
-  exists tr, nx. split; [exact E|]. split; [apply step_inv, reach_inv|]. split; [|exact K].
-  rewrite E. apply schedule_track, reach_inv.
+  intros Hs Hok. destruct (sched_ok o a recv ref p _ Hs Hok) as (tr & nx & E & Hd & Hf & K).
+  exists tr, nx. split; [exact E|]. split; [apply step_inv, reach_inv|]. split; [|auto].
+  rewrite E. apply insert_track; [apply reach_inv|exact Hf].
 Qed.
 
 Lemma thm_payload pre o a recv ref p post f :
-  is_sched o a recv ref p -> spin (run pre init) = false -> a ∉ dead (run pre init) ->
+  is_sched o a recv ref p -> snd (step o (run pre init)) = ROk ->
   In f (fires_of (nid (run pre init)) (run (pre ++ o :: post) init)) ->
   f_owner f = a /\ f_recv f = recv /\ f_ref f = ref /\ f_payload f = p /\
   (f_dead f = true -> recv ∈ dead (run (pre ++ o :: post) init)).
 Proof.
-  intros Hs Hsp Hd Hf. destruct (after_sched pre o a recv ref p Hs Hsp Hd) as (tr & nx & E & I' & T & _).
+  intros Hs Hok Hf. destruct (after_sched pre o a recv ref p Hs Hok) as (tr & nx & E & I' & T & _).
   apply In_fires_of in Hf as [Hin Hid].
   assert (DLf : DL (run (pre ++ o :: post) init)) by apply run_dl, dl_init.
   rewrite run_split in Hin |- *.
   pose proof (run_track _ _ _ _ _ _ post _ T) as T'.
-  destruct (tr_fir _ _ _ _ _ _ _ T' _ Hin Hid) as (Ho & Hr & Hf & Hp).
+  destruct (tr_fir _ _ _ _ _ _ _ T' _ Hin Hid) as (Ho & Hr & Hrf & Hp).
   repeat (split; [assumption|]). intros Hdl. rewrite <- Hr. rewrite <- run_split. apply DLf; [rewrite run_split; exact Hin|exact Hdl].
 Qed.
 
+Lemma once_kind pre a recv ref d p tr nx :
+  ((exists d', OOnce a recv ref d p = OOnce a recv ref d' p /\ tr = TOnce /\ nx = now (run pre init) + d' /\ 0 <= d') \/
+   (exists i, OOnce a recv ref d p = OLoop a recv ref i p /\ tr = TLoop i /\ nx = now (run pre init) + i /\ 0 < i) \/
+   (OOnce a recv ref d p = OCron a recv ref true p /\ tr = TCron)) ->
+  tr = TOnce /\ nx = now (run pre init) + d /\ 0 <= d.
+Proof. intros [(d' & [= <-] & ? & ? & ?)|[(i & [=] & _)|([=] & _)]]. auto. Qed.
+
+Lemma loop_kind pre a recv ref i p tr nx :
+  ((exists d', OLoop a recv ref i p = OOnce a recv ref d' p /\ tr = TOnce /\ nx = now (run pre init) + d' /\ 0 <= d') \/
+   (exists i', OLoop a recv ref i p = OLoop a recv ref i' p /\ tr = TLoop i' /\ nx = now (run pre init) + i' /\ 0 < i') \/
+   (OLoop a recv ref i p = OCron a recv ref true p /\ tr = TCron)) ->
+  tr = TLoop i /\ nx = now (run pre init) + i /\ 0 < i.
+Proof. intros [(d' & [=] & _)|[(i' & [= <-] & ? & ? & ?)|([=] & _)]]. auto. Qed.
+
 Lemma thm_once_safety pre a recv ref d p post :
-  spin (run pre init) = false -> a ∉ dead (run pre init) ->
+  snd (step (OOnce a recv ref d p) (run pre init)) = ROk ->
   (length (fires_of (nid (run pre init)) (run (pre ++ OOnce a recv ref d p :: post) init)) <= 1)%nat /\
   (forall f, In f (fires_of (nid (run pre init)) (run (pre ++ OOnce a recv ref d p :: post) init)) ->
              now (run pre init) + d <= f_time f).
 Proof.
-  intros Hsp Hd.
-  destruct (after_sched pre (OOnce a recv ref d p) a recv ref p (or_introl (ex_intro _ d eq_refl)) Hsp Hd) as (tr & nx & E & I' & T & K).
-  assert (tr = TOnce /\ nx = now (run pre init) + d) as [-> ->].
-  { destruct K as [(d' & [= <-] & ? & ?)|[(i & [=] & _)|([=] & _)]]. auto. }
+  intros Hok.
+  destruct (after_sched pre (OOnce a recv ref d p) a recv ref p (or_introl (ex_intro _ d eq_refl)) Hok) as (tr & nx & E & I' & T & Hd & Hfree & K).
+  apply once_kind in K as (-> & -> & Hd0).
   rewrite run_split.
   assert (O : OnceInv (nid (run pre init)) (now (run pre init) + d) (fst (step (OOnce a recv ref d p) (run pre init)))).
-  { rewrite E. apply schedule_once_inv, reach_inv. }
+  { rewrite E. apply insert_once_inv; [apply reach_inv|exact Hfree]. }
   pose proof (run_once_inv _ _ _ _ _ _ post _ I' T O) as O'.
   split; [apply O'|apply O'].
 Qed.
 
-Lemma step_now_le o s : now (fst (step o s)) <= now s + op_dt o /\ 0 <= op_dt o.
-Proof.
-  split; [|destruct o; cbn; lia]. destruct (spin s) eqn:E.
-  - rewrite step_spin_frozen by exact E. destruct o; cbn; lia.
-  - rewrite step_now by exact E. lia.
-Qed.
-Lemma run_now_le ops : forall s, now (run ops s) <= now s + elapsed ops.
-Proof.
-  induction ops as [|o ops IH]; intros s; [cbn; lia|]. rewrite elapsed_cons. cbn [run].
-  pose proof (IH (fst (step o s))). pose proof (step_now_le o s). lia.
-Qed.
-
 Lemma thm_cancel_stops pre o a recv ref p mid c post :
-  is_sched o a recv ref p -> spin (run pre init) = false -> a ∉ dead (run pre init) -> removes a ref c ->
+  is_sched o a recv ref p -> snd (step o (run pre init)) = ROk -> removes a ref c ->
   fires_of (nid (run pre init)) (run (pre ++ o :: mid ++ c :: post) init) =
   fires_of (nid (run pre init)) (run (pre ++ o :: mid) init).
 Proof.
-  intros Hs Hsp Hd R. destruct (after_sched pre o a recv ref p Hs Hsp Hd) as (tr & nx & E & I' & T & _).
+  intros Hs Hok R. destruct (after_sched pre o a recv ref p Hs Hok) as (tr & nx & E & I' & T & _).
   rewrite !run_split.
   set (s2 := run mid (fst (step o (run pre init)))).
   assert (I2 : Inv s2) by (apply run_inv, I').
   assert (T2 : Track (nid (run pre init)) a recv ref p tr s2) by (apply run_track, T).
-  destruct (spin s2) eqn:Es2.
-  - rewrite (step_spin_frozen c s2 Es2), (run_spin_frozen post s2 Es2). reflexivity.
-  - pose proof (step_removes _ _ _ _ _ _ c s2 I2 T2 R Es2) as G.
-    assert (Hnt : is_tick c = false) by (destruct R as [-> | [-> | [-> | ->]]]; reflexivity).
-    pose proof (step_track _ _ _ _ _ _ c _ T2) as T3.
-    destruct (run_gone _ post _ (step_inv c s2 I2) (tr_lt _ _ _ _ _ _ _ T3) G) as [_ Ef].
-    rewrite Ef. apply step_fires_nontick. exact Hnt.
+  pose proof (step_removes _ _ _ _ _ _ c s2 I2 T2 R) as G.
+  assert (Hnt : is_tick c = false) by (destruct R as [-> | [-> | [-> | ->]]]; reflexivity).
+  pose proof (step_track _ _ _ _ _ _ c _ T2) as T3.
+  destruct (run_gone _ post _ (step_inv c s2 I2) (tr_lt _ _ _ _ _ _ _ T3) G) as [_ Ef].
+  rewrite Ef. apply step_fires_nontick. exact Hnt.
 Qed.
 
 Lemma thm_once_cancelled pre a recv ref d p mid c post :
-  spin (run pre init) = false -> a ∉ dead (run pre init) -> removes a ref c -> elapsed mid < d ->
+  snd (step (OOnce a recv ref d p) (run pre init)) = ROk -> removes a ref c -> elapsed mid < d ->
   fires_of (nid (run pre init)) (run (pre ++ OOnce a recv ref d p :: mid ++ c :: post) init) = [].
 Proof.
-  intros Hsp Hd R Hel.
-  rewrite (thm_cancel_stops pre (OOnce a recv ref d p) a recv ref p mid c post (or_introl (ex_intro _ d eq_refl)) Hsp Hd R).
+  intros Hok R Hel.
+  rewrite (thm_cancel_stops pre (OOnce a recv ref d p) a recv ref p mid c post (or_introl (ex_intro _ d eq_refl)) Hok R).
   destruct (fires_of _ _) as [|f l] eqn:Ef; [reflexivity|exfalso].
   assert (Hin : In f (fires_of (nid (run pre init)) (run (pre ++ OOnce a recv ref d p :: mid) init))) by (rewrite Ef; left; reflexivity).
-  pose proof (proj2 (thm_once_safety pre a recv ref d p mid Hsp Hd) f Hin) as Hge.
+  pose proof (proj2 (thm_once_safety pre a recv ref d p mid Hok) f Hin) as Hge.
   apply In_fires_of in Hin as [Hin _]. apply (inv_fired _ (reach_inv _)) in Hin as [_ Hle].
-  rewrite run_split in Hle. pose proof (run_now_le mid (fst (step (OOnce a recv ref d p) (run pre init)))) as Hn.
-  rewrite step_now in Hn by exact Hsp. cbn [op_dt] in Hn. lia.
+  rewrite run_split, run_now, step_now in Hle. cbn [op_dt] in Hle. lia.
 Qed.
 
 Lemma thm_once_delivered pre a recv ref d p post1 dt post2 :
-  spin (run pre init) = false -> a ∉ dead (run pre init) ->
-  tbl (run pre init) !! job_key a ref = None -> 0 <= d ->
-  no_stall post1 -> Forall (fun o => ~ touches (job_key a ref) o) post1 ->
+  snd (step (OOnce a recv ref d p) (run pre init)) = ROk ->
+  no_stall post1 -> Forall (fun o => ~ removes a ref o) post1 ->
   d <= elapsed post1 + Z.max dt 0 ->
-  spin (run (pre ++ OOnce a recv ref d p :: post1 ++ OTick dt :: post2) init) = false ->
   exists f,
     fires_of (nid (run pre init)) (run (pre ++ OOnce a recv ref d p :: post1 ++ OTick dt :: post2) init) = [f] /\
     f_time f = now (run pre init) + d /\ f_payload f = p /\ f_recv f = recv /\ f_owner f = a /\ f_ref f = ref /\
     (recv ∉ dead (run (pre ++ OOnce a recv ref d p :: post1 ++ OTick dt :: post2) init) -> f_dead f = false).
 Proof.
-  intros Hsp Hd Hfree Hd0 Hns Hto Hel Hfin.
+  intros Hok Hns Hto Hel.
   set (o := OOnce a recv ref d p) in *. set (x := nid (run pre init)). set (D := now (run pre init) + d).
   assert (Hs : is_sched o a recv ref p) by (left; exists d; reflexivity).
-  destruct (after_sched pre o a recv ref p Hs Hsp Hd) as (tr & nx & E & I' & T & K).
-  assert (tr = TOnce /\ nx = D) as [-> ->].
-  { destruct K as [(d' & [= <-] & ? & ?)|[(i & [=] & _)|([=] & _)]]. auto. }
+  destruct (after_sched pre o a recv ref p Hs Hok) as (tr & nx & E & I' & T & Hd & Hfree & K).
+  apply once_kind in K as (-> & -> & Hd0).
   set (s1' := fst (step o (run pre init))) in *.
-  assert (O : OnceInv x D s1') by (rewrite E; apply schedule_once_inv, reach_inv).
+  assert (O : OnceInv x D s1') by (rewrite E; apply insert_once_inv; [apply reach_inv|exact Hfree]).
   assert (P : Pending x (job_key a ref) D s1').
-  { eexists. split; [rewrite E; apply schedule_tbl_lookup; right; split; [exact Hfree|split; reflexivity]|]. cbn. split; [reflexivity|].
+  { eexists. split; [rewrite E; apply insert_tbl_lookup; [exact Hfree|right; split; reflexivity]|]. cbn. split; [reflexivity|].
     rewrite E. cbn. lia. }
-  pose proof Hfin as Hfin'. rewrite run_split in Hfin'. fold s1' in Hfin'. rewrite run_app in Hfin'.
-  set (s2 := run post1 s1') in *.
-  assert (Es2 : spin s2 = false).
-  { destruct (spin s2) eqn:E2; [|reflexivity]. rewrite run_spin_frozen in Hfin' by exact E2. congruence. }
+  set (s2 := run post1 s1').
   assert (I2 : Inv s2) by (apply run_inv, I').
   assert (T2 : Track x a recv ref p TOnce s2) by (apply run_track, T).
   assert (O2 : OnceInv x D s2) by (eapply run_once_inv; eauto).
   assert (PD2 : Pending x (job_key a ref) D s2 \/ Done x D s2) by (eapply run_once_progress; eauto).
   assert (Hn2 : now s2 = now (run pre init) + elapsed post1).
-  { unfold s2. rewrite run_now by exact Es2. unfold s1'. rewrite step_now by exact Hsp. cbn [op_dt o]. lia. }
+  { unfold s2. rewrite run_now. unfold s1'. rewrite step_now. cbn [op_dt o]. lia. }
   assert (D3 : Done x D (fst (step (OTick dt) s2))).
   { destruct PD2 as [P2|D2].
-    - eapply (proj2 (step_once_progress x a recv ref p (job_key a ref) D (OTick dt) s2 I2 T2 O2 Es2 eq_refl (fun H => H) P2)); [reflexivity|].
+    - eapply (proj2 (step_once_progress x a recv ref p D (OTick dt) s2 I2 T2 O2 eq_refl
+               (fun H => match H with or_introl e | or_intror (or_introl e) | or_intror (or_intror (or_introl e)) | or_intror (or_intror (or_intror e)) => ltac:(discriminate e) end) P2)); [reflexivity|].
       unfold D. lia.
     - apply (done_stable x D [OTick dt] s2 I2 (tr_lt _ _ _ _ _ _ _ T2) D2). }
   pose proof (step_track _ _ _ _ _ _ (OTick dt) _ T2) as T3.
@@ -1102,94 +1108,50 @@ Proof.
   { rewrite run_split. fold s1'. rewrite run_app. reflexivity. }
   exists f. rewrite Efin. split; [exact Ef|]. split; [exact Ht|].
   assert (Hin : In f (fires_of x (run (pre ++ o :: post1 ++ OTick dt :: post2) init))) by (rewrite Efin, Ef; left; reflexivity).
-  destruct (thm_payload pre o a recv ref p (post1 ++ OTick dt :: post2) f Hs Hsp Hd Hin) as (Ho & Hr & Hrf & Hp & Hdl).
+  destruct (thm_payload pre o a recv ref p (post1 ++ OTick dt :: post2) f Hs Hok Hin) as (Ho & Hr & Hrf & Hp & Hdl).
   repeat (split; [assumption|]). intros Hnd. destruct (f_dead f); [|reflexivity]. exfalso. apply Hnd. rewrite <- Efin. apply Hdl. reflexivity.
 Qed.
 
-Lemma step_neg x a0 recv0 ref0 p0 D o s :
-  Inv s -> Track x a0 recv0 ref0 p0 TOnce s -> OnceInv x D s -> D < now s - thr -> fires_of x s = [] ->
-  fires_of x (fst (step o s)) = [].
+Lemma insert_loop_inv s a recv ref p i : Inv s -> tbl s !! job_key a ref = None -> 0 < i ->
+  LoopInv (nid s) (now s) i (insert_job s a recv ref p (TLoop i) (now s + i)).
 Proof.
-  intros I T O Hlt Hf. destruct (spin s) eqn:Es; [rewrite step_spin_frozen by exact Es; exact Hf|].
-  destruct (is_tick o) eqn:Et; [|rewrite step_fires_nontick by exact Et; exact Hf].
-  destruct o; try discriminate. rewrite step_tick by exact Es.
-  destruct (gone_dec x s) as [G|(k & j & Hj & Hid)].
-  - destruct (step_gone x (OTick dt) s I (tr_lt _ _ _ _ _ _ _ T) G) as [_ E]. rewrite step_tick in E by exact Es. congruence.
-  - destruct (tick_fires_job x dt s k j I Hj Hid) as (Ef & _ & _).
-    destruct (tr_job _ _ _ _ _ _ _ T _ _ Hj Hid) as (_ & _ & _ & _ & Htr).
-    destruct (oi_job _ _ _ O _ _ Hj Hid) as [Hn _]. rewrite Hf in Ef. cbn [app] in Ef.
-    unfold advance in Ef. rewrite Htr, Hn in Ef. assert (Hthr : thr = 100) by reflexivity.
-    rewrite (proj2 (Z.ltb_ge (now s + Z.max dt 0) D)) in Ef by lia.
-    rewrite (proj2 (Z.ltb_lt D (now s - thr))) in Ef by lia. exact Ef.
-Qed.
-
-Lemma run_neg x a0 recv0 ref0 p0 D ops : forall s,
-  Inv s -> Track x a0 recv0 ref0 p0 TOnce s -> OnceInv x D s -> D < now s - thr -> fires_of x s = [] ->
-  fires_of x (run ops s) = [].
-Proof.
-  induction ops as [|o ops IH]; intros s I T O Hlt Hf; cbn; [exact Hf|].
-  apply IH; [apply step_inv, I|apply step_track, T|eapply step_once_inv; eauto| |eapply step_neg; eauto].
-  pose proof (step_now_mono o s). lia.
-Qed.
-
-Lemma thm_once_negative pre a recv ref d p post :
-  spin (run pre init) = false -> a ∉ dead (run pre init) -> d < - thr ->
-  fires_of (nid (run pre init)) (run (pre ++ OOnce a recv ref d p :: post) init) = [].
-Proof.
-  intros Hsp Hd Hneg.
-  destruct (after_sched pre (OOnce a recv ref d p) a recv ref p (or_introl (ex_intro _ d eq_refl)) Hsp Hd) as (tr & nx & E & I' & T & K).
-  assert (tr = TOnce /\ nx = now (run pre init) + d) as [-> ->].
-  { destruct K as [(d' & [= <-] & ? & ?)|[(i & [=] & _)|([=] & _)]]. auto. }
-  rewrite run_split. eapply run_neg; eauto.
-  - rewrite E. apply schedule_once_inv, reach_inv.
-  - rewrite step_now by exact Hsp. cbn [op_dt]. lia.
-  - rewrite E, schedule_fires. apply fires_of_fresh; [apply reach_inv|lia].
-Qed.
-
-Lemma schedule_loop_inv s a recv ref p i : Inv s -> 0 < i ->
-  LoopInv (nid s) (now s) i (schedule s a recv ref p (TLoop i) (now s + i)).
-Proof.
-  intros I Hi. exists 0%nat. rewrite schedule_fires, fires_of_fresh by (auto; lia). split; [reflexivity|]. split; [cbn; lia|].
-  intros k j H Hid. apply schedule_tbl_lookup in H as [H|(_ & _ & ->)]; [pose proof (inv_idlt _ I _ _ H); lia|].
+  intros I Hfree Hi. exists 0%nat. rewrite insert_fires, fires_of_fresh by (auto; lia). split; [reflexivity|]. split; [cbn; lia|].
+  intros k j H Hid. apply insert_tbl_lookup in H as [H|(_ & ->)]; [pose proof (inv_idlt _ I _ _ H); lia| |exact Hfree].
   cbn. lia.
 Qed.
 
 Lemma thm_loop_grid pre a recv ref i p post :
-  spin (run pre init) = false -> a ∉ dead (run pre init) -> 0 < i -> no_stall post ->
+  snd (step (OLoop a recv ref i p) (run pre init)) = ROk -> no_stall post ->
   exists m : nat,
     map f_time (fires_of (nid (run pre init)) (run (pre ++ OLoop a recv ref i p :: post) init)) = grid (now (run pre init)) i m /\
     now (run pre init) + Z.of_nat m * i <= now (run (pre ++ OLoop a recv ref i p :: post) init).
 Proof.
-  intros Hsp Hd Hi Hns.
-  destruct (after_sched pre (OLoop a recv ref i p) a recv ref p (or_intror (or_introl (ex_intro _ i eq_refl))) Hsp Hd) as (tr & nx & E & I' & T & K).
-  assert (tr = TLoop i /\ nx = now (run pre init) + i) as [-> ->].
-  { destruct K as [(d' & [=] & _)|[(i' & [= <-] & ? & ?)|([=] & _)]]. auto. }
+  intros Hok Hns.
+  destruct (after_sched pre (OLoop a recv ref i p) a recv ref p (or_intror (or_introl (ex_intro _ i eq_refl))) Hok) as (tr & nx & E & I' & T & Hd & Hfree & K).
+  apply loop_kind in K as (-> & -> & Hi).
   rewrite run_split.
   assert (L : LoopInv (nid (run pre init)) (now (run pre init)) i (fst (step (OLoop a recv ref i p) (run pre init)))).
-  { rewrite E. apply schedule_loop_inv; [apply reach_inv|exact Hi]. }
+  { rewrite E. apply insert_loop_inv; [apply reach_inv|exact Hfree|exact Hi]. }
   destruct (run_loop_inv _ _ _ _ _ _ _ post _ I' T Hi Hns L) as (m & Hf & Hle & _). exists m. auto.
 Qed.
 
 Lemma thm_loop_exact pre a recv ref i p post :
-  spin (run pre init) = false -> a ∉ dead (run pre init) ->
-  tbl (run pre init) !! job_key a ref = None -> 0 < i ->
-  no_stall post -> Forall (fun o => ~ touches (job_key a ref) o) post ->
-  spin (run (pre ++ OLoop a recv ref i p :: post) init) = false ->
+  snd (step (OLoop a recv ref i p) (run pre init)) = ROk ->
+  no_stall post -> Forall (fun o => ~ removes a ref o) post ->
   map f_time (fires_of (nid (run pre init)) (run (pre ++ OLoop a recv ref i p :: post) init)) =
   grid (now (run pre init)) i
        (Z.to_nat ((now (run (pre ++ OLoop a recv ref i p :: post) init) - now (run pre init)) / i)).
 Proof.
-  intros Hsp Hd Hfree Hi Hns Hto Hfin.
-  destruct (after_sched pre (OLoop a recv ref i p) a recv ref p (or_intror (or_introl (ex_intro _ i eq_refl))) Hsp Hd) as (tr & nx & E & I' & T & K).
-  assert (tr = TLoop i /\ nx = now (run pre init) + i) as [-> ->].
-  { destruct K as [(d' & [=] & _)|[(i' & [= <-] & ? & ?)|([=] & _)]]. auto. }
-  rewrite run_split in Hfin |- *.
+  intros Hok Hns Hto.
+  destruct (after_sched pre (OLoop a recv ref i p) a recv ref p (or_intror (or_introl (ex_intro _ i eq_refl))) Hok) as (tr & nx & E & I' & T & Hd & Hfree & K).
+  apply loop_kind in K as (-> & -> & Hi).
+  rewrite run_split.
   assert (L : LoopInv (nid (run pre init)) (now (run pre init)) i (fst (step (OLoop a recv ref i p) (run pre init)))).
-  { rewrite E. apply schedule_loop_inv; [apply reach_inv|exact Hi]. }
+  { rewrite E. apply insert_loop_inv; [apply reach_inv|exact Hfree|exact Hi]. }
   assert (P : Present (nid (run pre init)) (job_key a ref) (fst (step (OLoop a recv ref i p) (run pre init)))).
-  { eexists. split; [rewrite E; apply schedule_tbl_lookup; right; split; [exact Hfree|split; reflexivity]|reflexivity]. }
+  { eexists. split; [rewrite E; apply insert_tbl_lookup; [exact Hfree|right; split; reflexivity]|reflexivity]. }
   destruct (run_loop_inv _ _ _ _ _ _ _ post _ I' T Hi Hns L) as (m & Hf & Hle & Hjob).
-  destruct (run_present _ _ _ _ _ _ _ post _ I' T Hi Hto Hfin P) as (j & Hj & Hid).
+  destruct (run_present _ _ _ _ _ _ post _ I' T Hi Hto P) as (j & Hj & Hid).
   destruct (Hjob _ _ Hj Hid) as [Hn Hlt]. rewrite Hn in Hlt.
   rewrite Hf. f_equal.
   set (nw := now (run post (fst (step (OLoop a recv ref i p) (run pre init))))) in *.
@@ -1199,9 +1161,53 @@ Proof.
   rewrite <- Hq. lia.
 Qed.
 
+(** a scheduling call that does not return nil changes nothing *)
+Lemma thm_failed_call o a recv ref p s :
+  is_sched o a recv ref p -> snd (step o s) <> ROk -> fst (step o s) = s.
+Proof.
+  intros Hs Hne. unfold step, if_alive in *.
+  destruct Hs as [(d & ->) | [(i & ->) | ->]]; (destruct (is_dead s a); [reflexivity|]).
+  - destruct (d <? 0); [reflexivity|].
+    destruct (schedule_cases s a recv ref p TOnce (now s + d)) as [[E _]|(_ & _ & E)]; [exact E|rewrite E in Hne; contradiction].
+  - destruct (i <=? 0); [reflexivity|].
+    destruct (schedule_cases s a recv ref p (TLoop i) (now s + i)) as [[E _]|(_ & _ & E)]; [exact E|rewrite E in Hne; contradiction].
+  - destruct (schedule_cases s a recv ref p TCron 0) as [[E _]|(_ & _ & E)]; [exact E|rewrite E in Hne; contradiction].
+Qed.
+
+(** a reference that is still queued cannot be scheduled again: quartz's error, nothing changes *)
+Lemma thm_reuse_rejected o a recv ref p s j :
+  is_sched o a recv ref p -> tbl s !! job_key a ref = Some j ->
+  fst (step o s) = s /\ snd (step o s) <> ROk.
+Proof.
+  intros Hs Hj.
+  assert (Hne : snd (step o s) <> ROk).
+  { intros Hok. destruct (sched_ok o a recv ref p s Hs Hok) as (_ & _ & _ & _ & Hf & _). congruence. }
+  split; [eapply thm_failed_call; eauto|exact Hne].
+Qed.
+
+Lemma thm_reuse_result s a recv ref d p j :
+  is_dead s a = false -> 0 <= d -> ref <> [] -> tbl s !! job_key a ref = Some j ->
+  step (OOnce a recv ref d p) s = (s, RExists).
+Proof.
+  intros Hd Hd0 Hr Hj. unfold step, if_alive. rewrite Hd. rewrite (proj2 (Z.ltb_ge d 0)) by lia.
+  unfold schedule. destruct ref; [contradiction|]. rewrite Hj. reflexivity.
+Qed.
+
+Lemma thm_once_negative_rejected s a recv ref d p :
+  is_dead s a = false -> d < 0 -> step (OOnce a recv ref d p) s = (s, RIllegalArg).
+Proof. intros Hd Hneg. unfold step, if_alive. rewrite Hd. rewrite (proj2 (Z.ltb_lt d 0)) by lia. reflexivity. Qed.
+
+Lemma thm_loop_nonpositive_rejected s a recv ref i p :
+  is_dead s a = false -> i <= 0 -> step (OLoop a recv ref i p) s = (s, RIllegalArg).
+Proof. intros Hd Hneg. unfold step, if_alive. rewrite Hd. rewrite (proj2 (Z.leb_le i 0)) by lia. reflexivity. Qed.
+
 Lemma thm_cron_invalid s a recv ref p :
-  spin s = false -> is_dead s a = false -> step (OCron a recv ref false p) s = (s, RParseErr).
-Proof. intros Hs Hd. unfold step. rewrite Hs. unfold if_alive. rewrite Hd. reflexivity. Qed.
+  is_dead s a = false -> step (OCron a recv ref false p) s = (s, RParseErr).
+Proof. intros Hd. unfold step, if_alive. rewrite Hd. reflexivity. Qed.
+
+Lemma thm_cancel_unknown s a ref :
+  is_dead s a = false -> jk_of s a !! ref = None -> step (OCancel a ref) s = (s, RNotFound).
+Proof. intros Hd Hn. unfold step, if_alive. rewrite Hd. unfold cancel. rewrite Hn. reflexivity. Qed.
 
 Lemma thm_registered ops k j :
   tbl (run ops init) !! k = Some j ->
@@ -1213,12 +1219,8 @@ Proof.
   split; [exact (inv_key _ I _ _ H)|]. split; [exact (inv_own _ I _ _ H)|exact (inv_alive _ I _ _ H)].
 Qed.
 
-Lemma thm_jobkeys_render ops a r k : jk_of (run ops init) a !! r = Some k -> k = job_key a r.
-Proof. apply (inv_jk _ (reach_inv ops)). Qed.
-
-Lemma thm_cancel_unknown s a ref :
-  spin s = false -> is_dead s a = false -> jk_of s a !! ref = None -> step (OCancel a ref) s = (s, RNotFound).
-Proof. intros Hs Hd Hn. unfold step. rewrite Hs. unfold if_alive. rewrite Hd. unfold cancel. rewrite Hn. reflexivity. Qed.
+Lemma thm_loops_positive ops k j i : tbl (run ops init) !! k = Some j -> j_trig j = TLoop i -> 0 < i.
+Proof. apply reach_pos. Qed.
 
 Lemma thm_death ops (a : bytes) :
   a ∈ dead (run ops init) ->
@@ -1226,16 +1228,15 @@ Lemma thm_death ops (a : bytes) :
 Proof. apply dead_no_jobs, reach_inv. Qed.
 
 Lemma thm_death_no_fire pre (a : bytes) post f :
-  spin (run pre init) = false ->
   In f (fired (run (pre ++ ODied a :: post) init)) -> f_owner f = a -> In f (fired (run pre init)).
 Proof.
-  intros Hsp Hin Ho. rewrite run_split in Hin.
-  apply (run_fired_dead_owner post a f _ (step_inv _ _ (reach_inv pre)) (died_is_dead _ a Hsp)) in Hin; [|exact Ho].
-  rewrite step_fired in Hin. rewrite Hsp, app_nil_r in Hin. exact Hin.
+  intros Hin Ho. rewrite run_split in Hin.
+  apply (run_fired_dead_owner post a f _ (step_inv _ _ (reach_inv pre)) (died_is_dead _ a)) in Hin; [|exact Ho].
+  rewrite step_fired in Hin. rewrite app_nil_r in Hin. exact Hin.
 Qed.
 
 Lemma thm_restart pre (a : bytes) :
-  spin (run pre init) = false -> a ∉ dead (run pre init) ->
+  a ∉ dead (run pre init) ->
   (forall k j, tbl (run (pre ++ [ORestarted a]) init) !! k = Some j -> j_owner j <> a) /\
   jk_of (run (pre ++ [ORestarted a]) init) a = ∅.
-Proof. intros Hs Hd. rewrite run_split. cbn [run]. apply restarted_clears; [apply reach_inv|exact Hs|exact Hd]. Qed.
+Proof. intros Hd. rewrite run_split. cbn [run]. apply restarted_clears; [apply reach_inv|exact Hd]. Qed.
